@@ -111,15 +111,28 @@ func (eng *Engine) verifyFunction(f *ssa.Function, ct *Contract) (res *FuncResul
 	}
 	nreq := len(fc.assumps)
 	exit, results := fr.exec(st)
+	fc.constWriteObligations(eng.topIDs())
 	// postconditions
 	env := fr.newEnv(exit, fc.entry)
 	env.bindResults(f.Signature, results)
 	for i, cl := range ct.ensures {
-		g := env.boolExpr(cl.expr)
 		nm := fmt.Sprintf("%s#post.%d", name, i+1)
 		if cl.label != "" {
 			nm = fmt.Sprintf("%s#post.%s", name, cl.label)
 		}
+		if n := len(fr.rets); n >= 2 && n <= 32 {
+			// one conjunct per return statement, each over that path's own (unmerged) state:
+			// the solver splits on the return taken instead of reasoning through merged ite terms
+			var conj []*Term
+			for _, r := range fr.rets {
+				e := fr.newEnv(r.st, fc.entry)
+				e.bindResults(f.Signature, r.results)
+				conj = append(conj, Implies(r.st.pc, e.boolExpr(cl.expr)))
+			}
+			fc.oblige(nm, "post", cl.ids, True, And(conj...), cl, "postcondition: "+cl.text)
+			continue
+		}
+		g := env.boolExpr(cl.expr)
 		fc.oblige(nm, "post", cl.ids, exit.pc, g, cl, "postcondition: "+cl.text)
 	}
 	// frame
@@ -127,7 +140,6 @@ func (eng *Engine) verifyFunction(f *ssa.Function, ct *Contract) (res *FuncResul
 		eng.frameObligations(fr, fc, ct, exit, env0, name)
 	}
 	ids := eng.topIDs()
-	fc.constWriteObligations(ids)
 	// vacuity: the preconditions are satisfiable and some return is reachable
 	o := fc.oblige(name+"#vacuity.pre", "vacuity", ids, True, True, nil, "preconditions are satisfiable")
 	o.expect = "sat"
